@@ -101,3 +101,32 @@ Proof.
       * intros q Hq. rewrite Ho by (intro; apply Hq; now right). rewrite D1.
         assert (Nq : Nat.eqb q t = false) by (apply Nat.eqb_neq; intro; subst; apply Hq; now left). now rewrite Nq.
 Qed.
+
+(* ---- MergeDocument as a whole ---- *)
+Lemma set_data_get_other_data h i j v : i <> j -> d_data (get_doc (set_data h i v) j) = d_data (get_doc h j).
+Proof. apply data_set_data_other. Qed.
+
+(* A layer document applied to selected targets: the documents that are not selected keep their data, each
+   selected one gets the merge of its own data with the layer body, Parser.docs is unchanged. The layer is a
+   document of its own (not itself stored in the parser), as for every document of a layer file. *)
+Theorem merge_document_targets st pi l body st' :
+  select st pi = (SelTargets l, body) -> NoDup l -> ~ In pi l -> ~ In pi (pdocs st) ->
+  (forall t, In t l -> t < List.length (heap st)) -> pi < List.length (heap st) ->
+  merge_document st pi = (st', Ok tt) ->
+  pdocs st' = pdocs st /\
+  (forall q, In q l -> merge' (d_data (get_doc (heap st) q)) body = Ok (d_data (get_doc (heap st') q))) /\
+  (forall q, ~ In q l -> q <> pi -> d_data (get_doc (heap st') q) = d_data (get_doc (heap st) q)).
+Proof.
+  intros Hsel ND Hpi Hpd Hlt Hp H. unfold merge_document in H. rewrite Hsel in H.
+  set (h0 := set_data (heap st) pi body) in *.
+  destruct (merge_into h0 l pi) as [h2 r] eqn:M. inversion H; subst. clear H. cbn [pdocs heap].
+  assert (L0 : List.length h0 = List.length (heap st)) by (unfold h0; apply set_data_length).
+  destruct (merge_into_spec l h0 pi h2 ND Hpi) as (Ln & Ht & Ho); try (rewrite L0; assumption).
+  - exact M.
+  - split; [reflexivity|]. split.
+    + intros q Hq. pose proof (Ht q Hq) as E.
+      assert (Nq : pi <> q) by (intro; subst; contradiction).
+      unfold h0 in E. rewrite (data_set_data_other (heap st) pi q body Nq) in E.
+      rewrite (data_set_data_same (heap st) pi body Hp) in E. exact E.
+    + intros q Hq Nq. rewrite (Ho q Hq). unfold h0. apply data_set_data_other. congruence.
+Qed.
